@@ -123,6 +123,9 @@ class SvsWorld(World):
         self.prev_state = self.inst.state
         self.prev_local = dict(self.inst.local_sv)
         self.period = None          # model of the current suppression period: {'heard': merged dict}
+        self.sup_since = None
+        self.sup_reported = False
+        self.sup_bound = int(scenario.get('sup_interval', 0.2) * 1.5e6) + 3000
         self._wrap_handler()
         self.loop.after_step = self._after_step
 
@@ -169,6 +172,14 @@ class SvsWorld(World):
         if self.prev_state == self.SvsState.SyncSuppression and st == self.SvsState.SyncSteady:
             self.log('sup-end', by='publish' if self.new_data_this_step else 'timer', local=cur,
                      tx=[x for x in self.tx_this_step], agg=dict(getattr(inst, 'agg_sv', {})))
+        if st == self.SvsState.SyncSuppression and inst.running:
+            if self.sup_since is None:
+                self.sup_since = self.now_us()
+            elif self.now_us() - self.sup_since > self.sup_bound and not self.sup_reported:
+                self.sup_reported = True
+                self.log('sup-stuck', since=self.sup_since, bound=self.sup_bound, local=cur)
+        else:
+            self.sup_since = None
         self.prev_state = st
         self.tx_this_step = []
         self.new_data_this_step = False
@@ -291,7 +302,7 @@ class SvsWorld(World):
                 if cls == 'reject':
                     if _nz(after) != _nz(before):
                         self.violate('C18', 'merged-rejected', 'svs', rx['vkind'],
-                                     f'vector {rx["sv"]} ({rx["kind"]}) must be ignored entirely but changed the local '
+                                     f'vector {rx["sv"]} ({rx["vkind"]}) must be ignored entirely but changed the local '
                                      f'vector from {_fmt(before)} to {_fmt(after)}')
                     if e['callbacks']:
                         self.violate('C18', 'callback-spurious', 'svs', 'reject', 'missing-data callback fired for an ignored vector')
@@ -375,9 +386,12 @@ class SvsWorld(World):
                 heard = None
             elif k in ('stop', 'start'):
                 heard = None
-        for nonce, rx in rx_by_nonce.items():
-            if rx['delivered'] and nonce not in handled and not rx['short'] and self._attached_at(rx):
-                pass        # dispatch itself is C04's concern
+        for e in ev:
+            if e['k'] == 'sup-stuck':
+                self.violate('C18', 'suppression-stuck', 'svs', 'on_timer',
+                             f'the instance entered suppression at t={e["since"]}us and is still in suppression at t={e["t"]}us, '
+                             f'longer than any suppression timer it can sample ({e["bound"]}us): the period never ended, so no '
+                             f'decision about a sync Interest was taken (local {_fmt(e["local"])})')
         for t in self.loop.unretrieved_task_errors():
             if t in self.harness_tasks:
                 continue
@@ -387,9 +401,6 @@ class SvsWorld(World):
             exc = rep['exc']
             self.violate('C18', 'loop-exc', 'svs', innermost_ndn_frame(exc) if exc else 'loop',
                          f'{rep["message"]} {rep["exc_type"]}')
-
-    def _attached_at(self, rx):
-        return True
 
 
 def classify_vector(rx, own_seq):
